@@ -77,7 +77,7 @@ static void do_stats(ThreadObs& o) {
 }
 
 // thread scripts: a sequence of op codes interpreted over one "current span" of the thread
-//  a<k> alloc size class k, w write/fill, v verify, q query, h shrink to one granule, s statistics, r release, R release pre-allocated span 0, Q query pre-allocated span 1
+//  a<k> alloc size class k (+fill), W write through a truncating callback, v verify, q query, h shrink to one granule, s statistics, r release, R release pre-allocated span 0, Q query pre-allocated span 1
 static size_t size_class(int k) { switch (k) { case 0: return 1; case 1: return W.B / 4; case 2: return W.B / 2; case 3: return W.B - (W.pad ? W.G : 0); default: return 2 * W.G; } }
 
 static void run_script(int tid, const std::string& script, ThreadObs& o) {
@@ -95,6 +95,19 @@ static void run_script(int tid, const std::string& script, ThreadObs& o) {
     } else if (c == 'v') { if (have) intact(o, cur, tag, "before verify op"); }
     else if (c == 'q') { if (have) do_query(o, cur); }
     else if (c == 'h') { if (have) { Error e = W.alloc->shrink(cur, 1); o.log += "h" + std::to_string((int)e) + ":" + std::to_string(cur.size()) + ";"; if (e != Error::kOk) tfail(o, "shrink failed"); } }
+    else if (c == 'W') {   // write through a callback that truncates the span: the allocator shrinks it on return
+      if (have) {
+        size_t before = cur.size();
+        Error e = W.alloc->write(cur, [&](JitAllocator::Span& sp) noexcept -> Error {
+          memset(sp.rw(), tag, sp.size());
+          sp.shrink(sp.size() > 2 * W.G ? sp.size() / 2 : W.G);
+          return Error::kOk;
+        });
+        o.log += "W" + std::to_string((int)e) + ":" + std::to_string(cur.size()) + ";";
+        if (e != Error::kOk) tfail(o, "write with truncation failed");
+        else if (cur.size() > before || cur.size() % W.G) tfail(o, "write with truncation returned a bad span size");
+      }
+    }
     else if (c == 's') do_stats(o);
     else if (c == 'r') { if (have) { intact(o, cur, tag, "before release"); Error e = W.alloc->release(cur.rx()); o.log += "r" + std::to_string((int)e) + ";"; if (e != Error::kOk) tfail(o, "release failed"); have = false; } }
     else if (c == 'R') { Error e = W.alloc->release(W.pre[0].rx()); o.log += "R" + std::to_string((int)e) + ";"; if (e != Error::kOk) tfail(o, "release of pre-allocated span failed"); }
@@ -150,6 +163,10 @@ static std::vector<Scenario> scenarios() {
     {"fill-multi-2t", {"a1hr", "a4sqr"}, 1, 4 | 2},
     {"immediate-2t", {"a0r", "a0r"}, 0, 8},
     {"runtime-2t", {"J", "J"}, 0, 0},
+    {"wshrink-2t", {"a2Wvqr", "a2Wsr"}, 0, 0},
+    {"wshrink-fill-3t", {"a1Wr", "a3Wq", "a0sr"}, 0, 4},
+    {"dual-2t", {"a2Wvr", "a1hqr"}, 0, 1},
+    {"runtime-3t", {"J", "J", "a0sr"}, 0, 0},
     {"codegen-2t", {"A", "C"}, 0, 0},
     {"codegen-3t", {"C", "C", "A"}, 0, 0},
   };
@@ -328,7 +345,6 @@ int main(int argc, char** argv) {
   }
   int bound = c.thorough() ? 3 : 2;
   if (!c.opt("bound").empty()) bound = atoi(c.opt("bound").c_str());
-  std::string bounds;
   for (size_t si = 0; si < scs.size(); si++) {
     if (!c.mine((long long)si)) continue;
     const Scenario& sc = scs[si];
@@ -340,9 +356,10 @@ int main(int argc, char** argv) {
     c.n("states") += (long long)ex.outcomes.size(); c.n("distinct_nontrivial") += (long long)ex.outcomes.size();
     c.n("max_scheduling_points") = std::max(c.n("max_scheduling_points"), ex.max_points);
     for (auto& o : ex.outcomes) c.outcomes.insert(std::string(sc.name) + o);
-    bounds += std::string(sc.name) + ":" + std::to_string(ex.schedules) + " schedules/" + std::to_string(ex.outcomes.size()) + " outcomes" + (ex.stop ? "(capped) " : " ");
+    c.strs[std::string("schedules:") + sc.name] = std::to_string(ex.schedules) + " schedules, " + std::to_string(ex.outcomes.size()) + " distinct outcomes, <=" +
+                                                   std::to_string(ex.max_points) + " scheduling points" + (ex.stop ? " (capped by deadline)" : "");
   }
-  c.strs["bound"] = "preemptions<=" + std::to_string(bound) + "; " + bounds;
+  c.strs["bound"] = "preemptions<=" + std::to_string(bound) + " per scenario (per-scenario counts under schedules:<name>)";
   c.strs["rule"] = "all interleavings with at most the stated number of preemptions of 2-3 real threads per scenario; scheduling points = every pthread_mutex_lock/unlock "
                    "of the library (link-time interposed) + every harness operation boundary; an execution is distinct when its observation string (per-thread results, "
                    "sizes, final statistics, generated bytes) differs; TSan sees only the library's own lock as synchronisation";
